@@ -23,6 +23,7 @@ struct Tally {
     rechecked: u64,
     sugg_off: u64,
     final_bs: u64,
+    final_dead: u64,
     max_memo: u64,
 }
 fn flush(t: &Tally, out: &mut Out) {
@@ -38,18 +39,20 @@ fn flush(t: &Tally, out: &mut Out) {
     out.count("mismatches_rechecked_with_truly_new_context", t.rechecked);
     out.count("comparisons_with_suggestions_off", t.sugg_off);
     out.count("comparisons_whose_final_event_is_a_backspace", t.final_bs);
+    out.count("comparisons_whose_final_event_is_a_key_without_character", t.final_dead);
     out.max("memo_entries_in_a_warm_context", t.max_memo);
 }
 
-const STORE: &str = r#"{"onno":"অন্য","ami":"আমই","as":"আশ","kotha":"কোথা","sesh":"শেষ","e":"এ","ebong":"এবং","hothat":"হঠাৎ","\"as\"":"আঁশ","amar":"আমার"}"#;
+const STORE: &str = r#"{"onno":"অন্য","ami":"আমই","as":"আশ","kotha":"কোথা","sesh":"শেষ","e":"এ","ebong":"এবং","hothat":"হঠাৎ","\"as\"":"আঁশ","amar":"আমার","kor":"কওর","kore":"কোরে","seshe":"সেশে"}"#;
 const USER_AC: &str = r#"{"amar":"tomar","onno":"Onno","as":"ash","kk":"kOk"}"#;
 const OTHER_STORE: &str = r#"{"ami":"আমি","as":"এস","sesh":"সেস"}"#;
 const OTHER_AC: &str = r#"{"ami":"tumi","sesh":"shesh","as":"aS"}"#;
 
 // (the last five are emoticons whose word part also has dictionary or auto-correct hits)
-const WORDS: [&str; 35] = [
+// (`korei` = kor+ei = kore+i and `sesher` = sesh+er = seshe+r: two learned bases split them; the engine must pick the same one every time)
+const WORDS: [&str; 38] = [
     "onno", "onnogulo", "ami", "Ami", "amI", "amar", "amake", "as", "asgulo", "ase", "kotha", "kothay", "sesh", "seshe", "sesher", "ebong", "ebongmala", "hothat", "hothate", "e", "ei",
-    "computer", "smile", "cool", "atm", "atme", "formate", "kkhetr", "kk", "a", "xD", "8D", "o:D", ":D", "xP",
+    "kor", "kore", "korei", "computer", "smile", "cool", "atm", "atme", "formate", "kkhetr", "kk", "a", "xD", "8D", "o:D", ":D", "xP",
 ];
 const PUNCT: &str = "-]~!@#%&*()_=+[{}'\";<>/?|.,:`\\$^";
 const LETTERS: &str = "abcdefghijklmnopqrstuvwxyzOIUTDNRSZ12";
@@ -69,6 +72,10 @@ struct Case {
     /// when Some: the final event is a backspace that deletes this extra character (typed with this selection byte) in the
     /// warm context; the reference deletes an extra 'k' instead (what is deleted does not survive)
     final_bs: Option<(char, u8)>,
+    /// when Some: the final event is this key, which has no character (keypad Enter / keypad Equals), with the selection byte
+    /// `sel`; the composition stays as it is. The warm context presses it right after its edit script (whose last key carried
+    /// the byte `sel` as well), the reference after typing the target with byte 0, one more `k` and a backspace.
+    final_dead: Option<u16>,
 }
 
 fn case_json(c: &Case) -> Value {
@@ -76,6 +83,7 @@ fn case_json(c: &Case) -> Value {
     json!({"cfg": c.spec.to_json(), "prior_words": c.prior.iter().map(|(w, e)| { let how = ENDS[*e as usize]; json!([w, how]) }).collect::<Vec<_>>(),
            "edit_script": script, "surviving_text": c.target, "final_selection_byte": c.sel, "second_context_interleaved": c.second,
            "final_event_is_backspace_deleting": c.final_bs.map(|(ch, b)| json!([ch.to_string(), b])),
+           "final_event_is_a_key_without_character": c.final_dead,
            "user_files": {"phonetic-candidate-selection.json": STORE, "autocorrect.json": USER_AC}})
 }
 
@@ -168,7 +176,8 @@ fn gen_case(rng: &mut Rng) -> Case {
     } else {
         None
     };
-    Case { spec, prior, script, target: t, sel: rng.below(3) as u8, second: rng.chance(1, 2), final_bs }
+    let final_dead = if rng.chance(1, 6) { Some(*rng.pick(&[0x0E1Cu16, 0x0E0D])) } else { None };
+    Case { spec, prior, script, target: t, sel: rng.below(3) as u8, second: rng.chance(1, 2), final_bs, final_dead }
 }
 
 /// Execute the case on the warm context; returns the rendering of the final event.
@@ -243,6 +252,10 @@ fn run_warm(warm: &Sess, other: Option<&Sess>, c: &Case, t: &mut Tally) -> Resul
         last = Some(warm.bs(false)?);
         t.calls += 2;
     }
+    if let Some(code) = c.final_dead {
+        last = Some(warm.key(code, 0, c.sel)?);
+        t.calls += 1;
+    }
     // memo state before ending the word
     let st = warm.state();
     let word = split(&c.target, false).1;
@@ -258,12 +271,16 @@ fn run_direct(r: &Sess, c: &Case, t: &mut Tally) -> Result<Rs, Panic> {
     let mut last = None;
     for (i, ch) in tc.iter().enumerate() {
         t.calls += 1;
-        last = Some(r.key(kc(*ch), 0, if i + 1 == tc.len() { c.sel } else { 0 })?);
+        last = Some(r.key(kc(*ch), 0, if i + 1 == tc.len() && c.final_dead.is_none() { c.sel } else { 0 })?);
     }
-    if c.final_bs.is_some() {
+    if c.final_bs.is_some() || c.final_dead.is_some() {
         r.key(kc('k'), 0, 0)?;
         last = Some(r.bs(false)?);
         t.calls += 2;
+    }
+    if let Some(code) = c.final_dead {
+        last = Some(r.key(code, 0, c.sel)?);
+        t.calls += 1;
     }
     let rs = Rs::of(last.as_ref().unwrap());
     r.finish()?;
@@ -344,6 +361,9 @@ fn judge(warm: &Sess, other: Option<&Sess>, reference: &Sess, c: &Case, out: &mu
             if c.final_bs.is_some() {
                 t.final_bs += 1;
             }
+            if c.final_dead.is_some() {
+                t.final_dead += 1;
+            }
             out.distinct(fnv_str(&[&c.target, &c.spec.opts.to_string(), &c.sel.to_string(), &c.script.iter().collect::<String>()]));
             if out.want_sample() && t.comparisons % 1777 == 29 {
                 out.sample(json!({"case": case_json(c), "rendering": a.to_json()}));
@@ -407,6 +427,7 @@ fn parse_case(case: &Value) -> Option<Case> {
         sel: case.get("final_selection_byte").and_then(|s| s.as_u64()).unwrap_or(0) as u8,
         second: case.get("second_context_interleaved").and_then(|s| s.as_bool()).unwrap_or(false),
         final_bs: case.get("final_event_is_backspace_deleting").and_then(|f| f.as_array()).and_then(|a| Some((a.first()?.as_str()?.chars().next()?, a.get(1)?.as_u64()? as u8))),
+        final_dead: case.get("final_event_is_a_key_without_character").and_then(|f| f.as_u64()).map(|k| k as u16),
     })
 }
 
